@@ -107,7 +107,8 @@ def next_section(name="", report=MAIN_REPORT):
         if source['independent']:
             new_code = ''.join(sections[section_index])
             old_code = ''.join(sections[:section_index])
-            report.submission.set_line_offset(len(old_code.split("\n"))-1)
+            # Lines as Python counts them: a lone carriage return ends a line too
+            report.submission.set_line_offset(len(re.findall(r'\r\n|\r|\n', old_code)))
         else:
             new_code = ''.join(sections[:section_index + 1])
         report.submission.replace_main(new_code)
